@@ -478,7 +478,8 @@ Definition fin_step (vh : nat -> list N -> N) (ofp : nat -> N) (s : hstate) : fs
               let s3 := advance s2 nr in
               if nr =? 0 then FDone (abort (set_res s3) None)
               else match first_bad s3 nr with
-                   | Some j => FDone (abort s3 (Some ([j], EVerify)))
+                   | Some (_, VHash) => FDone (abort s3 (Some ([], EBroadcastHash)))
+                   | Some (j, _) => FDone (abort s3 (Some ([j], EVerify)))
                    | None => FCont s3
                    end
         | _ => FDone s2
@@ -501,7 +502,7 @@ Proof.
   destruct (existsb _ _); try reflexivity.
   prjs.
   destruct (_ =? 0); try reflexivity.
-  destruct (first_bad _ _); reflexivity.
+  destruct (first_bad _ _) as [[j []]|]; reflexivity.
 Qed.
 
 (* induction principle: a step-invariant [P] with exit condition [Q] *)
@@ -615,7 +616,7 @@ Proof.
     destruct (abort_none_running (set_res (advance s2 (next_round s1)))) as (E & Cl & R & _); [exact Hr2|exact A|].
     right. unfold term_ok. rewrite Cl, R. unfold terminal. rewrite E. autorewrite with hdb.
     apply terminal_false in B as [B _]. unfold set_res, advance in *. prjs. prjs in B. rewrite B. cbn. auto.
-  - destruct (first_bad _ _); [apply life_abort_some; exact H3|exact H3].
+  - destruct (first_bad _ _) as [[j []]|]; try (apply life_abort_some; exact H3); exact H3.
 Qed.
 
 Lemma finalize_life vh ofp f s : nonterm_ok s -> life_ok (finalize vh ofp f s).
@@ -646,7 +647,7 @@ Proof.
   destruct (m_round m =? 0); [apply life_abort_some; exact Hn|].
   pose proof (nonterm_store s m Hn) as H1.
   destruct (negb _); [left; exact H1|].
-  destruct (if m_bcast m then _ else _); [apply finalize_life; exact H1|apply life_abort_some; exact H1].
+  destruct (if m_bcast m then _ else _); [apply finalize_life; exact H1|apply life_abort_some; exact H1..].
 Qed.
 
 Lemma stop_life s : life_ok s -> life_ok (stop true s).
@@ -849,8 +850,8 @@ Proof.
   destruct (existsb _ _); [exact H2|].
   destruct (_ =? 0).
   { rewrite (slot_frame s2) by (autorewrite with hdb; reflexivity); exact H2. }
-  destruct (first_bad _ _); [|exact H2].
-  rewrite (slot_frame s2) by (autorewrite with hdb; reflexivity); exact H2.
+  destruct (first_bad _ _) as [[j0 []]|]; [| | |exact H2];
+    (rewrite (slot_frame s2) by (autorewrite with hdb; reflexivity); exact H2).
 Qed.
 
 Lemma finalize_slot_mono vh ofp f b r j x s :
@@ -868,8 +869,8 @@ Proof.
   { rewrite (slot_frame s) by (autorewrite with hdb; reflexivity); exact H. }
   pose proof (store_slot_mono s m b r j x H) as H1.
   destruct (negb _); [exact H1|].
-  destruct (if m_bcast m then _ else _); [apply finalize_slot_mono; exact H1|].
-  rewrite (slot_frame (store s m)) by (autorewrite with hdb; reflexivity); exact H1.
+  destruct (if m_bcast m then _ else _); [apply finalize_slot_mono; exact H1| |];
+    (rewrite (slot_frame (store s m)) by (autorewrite with hdb; reflexivity); exact H1).
 Qed.
 
 Lemma stop_slot fixed s b r j : slot (stop fixed s) b r j = slot s b r j.
@@ -921,8 +922,8 @@ Proof.
   destruct (duplicate_false_slot s m D R) as [Hq N].
   pose proof (store_slot_new s m Hq N) as H1.
   destruct (negb _); [exact H1|].
-  destruct (if m_bcast m then _ else _); [apply finalize_slot_mono; exact H1|].
-  rewrite (slot_frame (store s m)) by (autorewrite with hdb; reflexivity); exact H1.
+  destruct (if m_bcast m then _ else _); [apply finalize_slot_mono; exact H1| |];
+    (rewrite (slot_frame (store s m)) by (autorewrite with hdb; reflexivity); exact H1).
 Qed.
 
 Theorem first_message_wins fixed vh ofp s m m' :
@@ -1120,10 +1121,15 @@ Proof.
   unfold others. rewrite filter_In, in_seq, negb_true_iff, Nat.eqb_neq. intuition lia.
 Qed.
 
-Lemma first_bad_in s r j : first_bad s r = Some j -> In j (others s).
+Lemma first_bad_spec s r j v :
+  first_bad s r = Some (j, v) -> In j (others s) /\ v = queued_verdict s r j /\ vres_ok v = false.
 Proof.
-  unfold first_bad. destruct (sh_bcast _ _); intro H; apply find_some in H; apply H.
+  unfold first_bad. destruct (find _ _) as [j0|] eqn:F; [|discriminate].
+  intro H. inversion H; subst. apply find_some in F as [F1 F2]. apply negb_true_iff in F2. auto.
 Qed.
+
+Lemma first_bad_in s r j v : first_bad s r = Some (j, v) -> In j (others s).
+Proof. intro H. apply (first_bad_spec s r j v H). Qed.
 
 Lemma fin_step_hinv vh ofp s :
   hinv s -> match fin_step vh ofp s with FDone s' => hinv s' | FCont s3 => hinv s3 end.
@@ -1144,9 +1150,9 @@ Proof.
     unfold cur_reached, advance. prjs. cbn [existsb]. rewrite Nat.eqb_refl. reflexivity. }
   destruct (_ =? 0).
   { apply hinv_abort_none. revert H3. apply hinv_frame; reflexivity. }
-  destruct (first_bad _ _) eqn:F; [|exact H3].
-  apply hinv_abort; [|exact H3].
-  apply first_bad_in, others_spec in F. exists p. split; [reflexivity|apply F].
+  destruct (first_bad _ _) as [[j v]|] eqn:F; [|exact H3].
+  apply first_bad_in, others_spec in F.
+  destruct v; apply hinv_abort; try exact H3; try reflexivity; (exists j; split; [reflexivity|apply F]).
 Qed.
 
 Lemma finalize_hinv vh ofp f s : hinv s -> hinv (finalize vh ofp f s).
@@ -1162,8 +1168,9 @@ Proof.
   { apply hinv_abort; [|exact H]. exists (m_from m). auto. }
   pose proof (hinv_store s m H) as H1.
   destruct (negb _); [exact H1|].
-  destruct (if m_bcast m then _ else _); [apply finalize_hinv; exact H1|].
-  apply hinv_abort; [|exact H1]. exists (m_from m). autorewrite with hdb. auto.
+  destruct (if m_bcast m then _ else _); [apply finalize_hinv; exact H1| |].
+  - apply hinv_abort; [|exact H1]. exists (m_from m). autorewrite with hdb. auto.
+  - apply hinv_abort; [reflexivity|exact H1].
 Qed.
 
 Lemma stop_hinv fixed s : hinv s -> hinv (stop fixed s).
@@ -1212,7 +1219,7 @@ Proof.
   destruct (h_rt s2); try exact H2.
   destruct (existsb _ _); [exact H2|].
   destruct (_ =? 0); [revert H2; sframe|].
-  destruct (first_bad _ _); [revert H2; sframe|exact H2].
+  destruct (first_bad _ _) as [[j []]|]; [revert H2; sframe..|exact H2].
 Qed.
 
 Lemma finalize_static vh ofp f s0 s : same_static s0 s -> same_static s0 (finalize vh ofp f s).
@@ -1225,7 +1232,7 @@ Proof.
   destruct (_ || _); [exact H|].
   destruct (m_round m =? 0); [revert H; sframe|].
   destruct (negb _); [revert H; sframe|].
-  destruct (if m_bcast m then _ else _); [apply finalize_static|]; revert H; sframe.
+  destruct (if m_bcast m then _ else _); [apply finalize_static| |]; revert H; sframe.
 Qed.
 
 Lemma api_step_static fixed vh ofp s e : same_static s (api_step fixed vh ofp s e).
@@ -1261,46 +1268,117 @@ Qed.
 (* ------------------------------------------------------------------ *)
 (* C05: an invalid message of the current round ends in a clean abort   *)
 (* ------------------------------------------------------------------ *)
+Lemma same_view_frame s s' m : h_hashes s' = h_hashes s -> same_view s' m = same_view s m.
+Proof. unfold same_view. intros ->. reflexivity. Qed.
+
+(* the verdict on a fresh message of the current round that is processed now *)
+Lemma current_verdict s m :
+  cur_reached s -> m_round m = h_cur s ->
+  (m_bcast m = true \/ sh_bcast (h_shape s) (m_round m) = false \/ slot s true (m_round m) (m_from m) <> None) ->
+  (same_view s m = false ->
+     (if m_bcast m then verify_bcast (store s m) m else verify_p2p (store s m) m) = VHash)
+  /\ (same_view s m = true -> m_valid m = false ->
+     (if m_bcast m then verify_bcast (store s m) m else verify_p2p (store s m) m) = VBad).
+Proof.
+  intros CR Ecur Now.
+  unfold verify_bcast, verify_p2p. rewrite (same_view_frame s (store s m)) by (autorewrite with hdb; reflexivity).
+  autorewrite with hdb. rewrite Ecur. unfold cur_reached in CR. rewrite CR. cbn [negb].
+  rewrite <- Ecur.
+  destruct (m_bcast m) eqn:Bm.
+  - split; [intros ->; reflexivity|]. intros -> V. cbn [negb].
+    destruct (sh_bcast _ _); [|reflexivity]. cbn [negb]. rewrite V. reflexivity.
+  - rewrite store_p2p_h_qb by exact Bm.
+    assert (W : sh_bcast (h_shape s) (m_round m) &&
+                match qget (h_qb s) (m_round m) (m_from m) with Some _ => false | None => true end = false).
+    { destruct Now as [N|[N|N]]; [discriminate|rewrite N; reflexivity|].
+      unfold slot in N. destruct (qget (h_qb s) (m_round m) (m_from m)); [apply andb_false_r|congruence]. }
+    rewrite W. split; [intros ->; reflexivity|]. intros -> V. cbn [negb]. rewrite V.
+    destruct (sh_p2p _ _); reflexivity.
+Qed.
+
+Lemma accept_current s m vh ofp :
+  h_rt s = Running -> terminal s = false -> can_accept s m = true -> duplicate s m = false ->
+  0 < m_round m -> m_round m = h_cur s ->
+  accept vh ofp s m =
+  match (if m_bcast m then verify_bcast (store s m) m else verify_p2p (store s m) m) with
+  | VOk => finalize vh ofp (fuel_of (store s m)) (store s m)
+  | VBad => abort (store s m) (Some ([m_from m], EVerify))
+  | VHash => abort (store s m) (Some ([], EBroadcastHash))
+  end.
+Proof.
+  intros Hr T C D R Ecur. unfold accept. rewrite Hr, C, D.
+  apply terminal_false in T as [E Rs]. rewrite E, Rs. cbn [negb orb].
+  destruct (m_round m =? 0) eqn:E0; [apply Nat.eqb_eq in E0; lia|].
+  autorewrite with hdb. rewrite Ecur, Nat.eqb_refl. cbn [negb]. reflexivity.
+Qed.
+
+Lemma abort_clean s ce :
+  h_rt s = Running -> h_closes s = 0 -> h_res s = false ->
+  let s' := abort s (Some ce) in
+  h_closes s' = 1 /\ result_class s' = 2 /\ h_err s' = Some ce /\ h_rt s' = Running.
+Proof.
+  intros Hr Hc Rs s'. subst s'.
+  destruct (abort_some_running s ce Hr Hc) as (Er & Cl & Rr).
+  unfold result_class. rewrite Er. autorewrite with hdb. rewrite Rs. auto.
+Qed.
+
 Lemma invalid_message_clean_abort_inv vh ofp s m :
   life_ok s -> cur_reached s ->
   h_rt s = Running -> terminal s = false ->
   can_accept s m = true -> duplicate s m = false ->
-  0 < m_round m -> m_round m = h_cur s -> m_valid m = false ->
+  0 < m_round m -> m_round m = h_cur s -> m_valid m = false -> same_view s m = true ->
   (m_bcast m = true \/ sh_bcast (h_shape s) (m_round m) = false \/ slot s true (m_round m) (m_from m) <> None) ->
   let s' := accept vh ofp s m in
   h_closes s' = 1 /\ result_class s' = 2 /\ h_err s' = Some ([m_from m], EVerify) /\ h_rt s' = Running.
 Proof.
-  intros L CR Hr T C D R Ecur V Now s'. subst s'.
-  unfold accept. rewrite Hr, C, D.
-  pose proof T as T'. apply terminal_false in T' as [E Rs]. rewrite E, Rs. cbn [negb orb].
-  destruct (m_round m =? 0) eqn:E0; [apply Nat.eqb_eq in E0; lia|].
-  autorewrite with hdb. rewrite Ecur, Nat.eqb_refl. cbn [negb].
-  assert (Vf : (if m_bcast m then verify_bcast (store s m) m else verify_p2p (store s m) m) = false).
-  { unfold verify_bcast, verify_p2p. autorewrite with hdb. rewrite Ecur. unfold cur_reached in CR. rewrite CR. cbn [negb].
-    rewrite <- Ecur.
-    destruct (m_bcast m) eqn:Bm.
-    - destruct (sh_bcast _ _); [|reflexivity]. cbn [negb]. rewrite V. reflexivity.
-    - rewrite store_p2p_h_qb by exact Bm.
-      destruct Now as [N|[N|N]]; [discriminate| |].
-      + rewrite N. cbn [andb]. rewrite V. destruct (sh_p2p _ _); reflexivity.
-      + unfold slot in N. destruct (qget (h_qb s) (m_round m) (m_from m)); [|congruence].
-        rewrite andb_false_r. rewrite V. destruct (sh_p2p _ _); reflexivity. }
-  rewrite Vf.
-  destruct (life_not_terminal s L T) as (A & _ & _).
-  destruct (abort_some_running (store s m) ([m_from m], EVerify)) as (Er & Cl & Rr); autorewrite with hdb; auto.
-  unfold result_class. rewrite Er. autorewrite with hdb. rewrite Rs. auto.
+  intros L CR Hr T C D R Ecur V SV Now s'. subst s'.
+  rewrite accept_current by assumption.
+  destruct (current_verdict s m CR Ecur Now) as [_ Vb]. rewrite (Vb SV V).
+  destruct (life_not_terminal s L T) as (A & _ & _). apply terminal_false in T as [_ Rs].
+  apply abort_clean; autorewrite with hdb; assumption.
 Qed.
 
 Theorem invalid_message_clean_abort vh ofp self n ssid proto sh s m :
   reachable true vh ofp self n ssid proto sh s ->
   h_rt s = Running -> terminal s = false ->
   can_accept s m = true -> duplicate s m = false ->
-  0 < m_round m -> m_round m = h_cur s -> m_valid m = false ->
+  0 < m_round m -> m_round m = h_cur s -> m_valid m = false -> same_view s m = true ->
   (m_bcast m = true \/ sh_bcast (h_shape s) (m_round m) = false \/ slot s true (m_round m) (m_from m) <> None) ->
   let s' := accept vh ofp s m in
   h_closes s' = 1 /\ result_class s' = 2 /\ h_err s' = Some ([m_from m], EVerify) /\ h_rt s' = Running.
 Proof.
   intro R. apply invalid_message_clean_abort_inv.
+  - eapply reachable_life; eassumption.
+  - eapply reachable_hinv; eassumption.
+Qed.
+
+(* a message sent under a different broadcast view (valid or not) ends in a clean abort naming nobody *)
+Lemma foreign_view_clean_abort_inv vh ofp s m :
+  life_ok s -> cur_reached s ->
+  h_rt s = Running -> terminal s = false ->
+  can_accept s m = true -> duplicate s m = false ->
+  0 < m_round m -> m_round m = h_cur s -> same_view s m = false ->
+  (m_bcast m = true \/ sh_bcast (h_shape s) (m_round m) = false \/ slot s true (m_round m) (m_from m) <> None) ->
+  let s' := accept vh ofp s m in
+  h_closes s' = 1 /\ result_class s' = 2 /\ h_err s' = Some ([], EBroadcastHash) /\ h_rt s' = Running.
+Proof.
+  intros L CR Hr T C D R Ecur SV Now s'. subst s'.
+  rewrite accept_current by assumption.
+  destruct (current_verdict s m CR Ecur Now) as [Vh _]. rewrite (Vh SV).
+  destruct (life_not_terminal s L T) as (A & _ & _). apply terminal_false in T as [_ Rs].
+  apply abort_clean; autorewrite with hdb; assumption.
+Qed.
+
+Theorem foreign_view_clean_abort vh ofp self n ssid proto sh s m :
+  reachable true vh ofp self n ssid proto sh s ->
+  h_rt s = Running -> terminal s = false ->
+  can_accept s m = true -> duplicate s m = false ->
+  0 < m_round m -> m_round m = h_cur s -> same_view s m = false ->
+  (m_bcast m = true \/ sh_bcast (h_shape s) (m_round m) = false \/ slot s true (m_round m) (m_from m) <> None) ->
+  let s' := accept vh ofp s m in
+  h_closes s' = 1 /\ result_class s' = 2 /\ h_err s' = Some ([], EBroadcastHash) /\ h_rt s' = Running.
+Proof.
+  intro R. apply foreign_view_clean_abort_inv.
   - eapply reachable_life; eassumption.
   - eapply reachable_hinv; eassumption.
 Qed.
@@ -1335,60 +1413,65 @@ Definition bad_msg (sh : shape) (m : msg) : bool :=
 
 Definition stored (s : hstate) (m : msg) : Prop := slot s (m_bcast m) (m_round m) (m_from m) = Some m.
 
+(* the culprit sent a stored message that is bad AND was sent under our own broadcast view *)
 Definition blames_bad (s : hstate) (c : list party) : Prop :=
-  exists j m0, c = [j] /\ j <> h_self s /\ m_from m0 = j /\ stored s m0 /\ bad_msg (h_shape s) m0 = true.
+  exists j m0, c = [j] /\ j <> h_self s /\ m_from m0 = j /\ stored s m0
+               /\ bad_msg (h_shape s) m0 = true /\ same_view s m0 = true.
 
 Lemma blames_bad_frame s s' c :
-  h_self s' = h_self s -> h_shape s' = h_shape s -> h_qb s' = h_qb s -> h_qp s' = h_qp s ->
+  h_self s' = h_self s -> h_shape s' = h_shape s -> h_qb s' = h_qb s -> h_qp s' = h_qp s -> h_hashes s' = h_hashes s ->
   blames_bad s c -> blames_bad s' c.
 Proof.
-  intros A B C D (j & m0 & H1 & H2 & H3 & H4 & H5). exists j, m0.
-  unfold stored in *. rewrite (slot_frame s s') by assumption. rewrite A, B. auto.
+  intros A B C D E (j & m0 & H1 & H2 & H3 & H4 & H5 & H6). exists j, m0.
+  unfold stored in *. rewrite (slot_frame s s') by assumption. rewrite (same_view_frame s s') by assumption.
+  rewrite A, B. repeat split; assumption.
 Qed.
 
-Lemma verify_p2p_false s p : m_bcast p = false -> verify_p2p s p = false -> bad_msg (h_shape s) p = true.
+Lemma verify_p2p_bad s p :
+  m_bcast p = false -> verify_p2p s p = VBad -> bad_msg (h_shape s) p = true /\ same_view s p = true.
 Proof.
   intros Bp. unfold verify_p2p, bad_msg. rewrite Bp.
   destruct (negb (existsb _ _)); [discriminate|].
   destruct (_ && _); [discriminate|].
-  destruct (sh_p2p _ _); intro H; try reflexivity; rewrite H; reflexivity.
+  destruct (same_view s p); cbn [negb]; [|discriminate].
+  destruct (sh_p2p _ _); destruct (m_valid p); intro H; try discriminate; auto.
 Qed.
 
-Lemma verify_bcast_false s m :
-  wf_queues s -> m_bcast m = true -> verify_bcast s m = false ->
-  bad_msg (h_shape s) m = true
-  \/ exists p, qget (h_qp s) (m_round m) (m_from m) = Some p /\ bad_msg (h_shape s) p = true.
+Lemma verify_bcast_bad s m :
+  wf_queues s -> m_bcast m = true -> verify_bcast s m = VBad ->
+  (bad_msg (h_shape s) m = true /\ same_view s m = true)
+  \/ exists p, qget (h_qp s) (m_round m) (m_from m) = Some p /\ bad_msg (h_shape s) p = true /\ same_view s p = true.
 Proof.
   intros [_ W] Bm. unfold verify_bcast.
   destruct (negb (existsb _ _)); [discriminate|].
+  destruct (same_view s m) eqn:SV; cbn [negb]; [|discriminate].
   destruct (sh_bcast (h_shape s) (m_round m)) eqn:Sb; cbn [negb].
-  2:{ intros _. left. unfold bad_msg. rewrite Bm, Sb. reflexivity. }
+  2:{ intros _. left. unfold bad_msg. rewrite Bm, Sb. auto. }
   destruct (m_valid m) eqn:V; cbn [negb].
-  2:{ intros _. left. unfold bad_msg. rewrite Bm, V. apply orb_true_r. }
+  2:{ intros _. left. unfold bad_msg. rewrite Bm, V. split; [apply orb_true_r|reflexivity]. }
   destruct (sh_p2p _ _); try discriminate;
     (destruct (qget (h_qp s) (m_round m) (m_from m)) as [p|] eqn:Q; [|discriminate];
      intro H; right; exists p; split; [reflexivity|];
-     apply verify_p2p_false; [apply (W _ _ _ Q)|exact H]).
+     apply verify_p2p_bad; [apply (W _ _ _ Q)|exact H]).
 Qed.
 
 Lemma first_bad_blames s r j :
-  wf_queues s -> first_bad s r = Some j -> blames_bad s [j].
+  wf_queues s -> first_bad s r = Some (j, VBad) -> blames_bad s [j].
 Proof.
-  intros W F. pose proof (first_bad_in s r j F) as Hin. apply others_spec in Hin as [_ Hne].
-  unfold first_bad in F. destruct W as [Wb Wp].
+  intros W F. destruct (first_bad_spec s r j VBad F) as (Hin & Hv & _).
+  apply others_spec in Hin as [_ Hne]. symmetry in Hv.
+  unfold queued_verdict in Hv. destruct W as [Wb Wp].
   destruct (sh_bcast (h_shape s) r).
-  - apply find_some in F as [_ F].
-    destruct (qget (h_qb s) r j) as [m0|] eqn:Q; [|discriminate].
-    apply negb_true_iff in F. destruct (Wb _ _ _ Q) as (E1 & E2 & E3).
-    destruct (verify_bcast_false s m0 (conj Wb Wp) E3 F) as [B|(p & Qp & B)].
-    + exists j, m0. unfold stored, slot. rewrite E1, E2, E3. auto.
+  - destruct (qget (h_qb s) r j) as [m0|] eqn:Q; [|discriminate].
+    destruct (Wb _ _ _ Q) as (E1 & E2 & E3).
+    destruct (verify_bcast_bad s m0 (conj Wb Wp) E3 Hv) as [[B SV]|(p & Qp & B & SV)].
+    + exists j, m0. unfold stored, slot. rewrite E1, E2, E3. auto 10.
     + rewrite E1, E2 in Qp. destruct (Wp _ _ _ Qp) as (P1 & P2 & P3).
-      exists j, p. unfold stored, slot. rewrite P1, P2, P3. auto.
-  - apply find_some in F as [_ F].
-    destruct (qget (h_qp s) r j) as [m0|] eqn:Q; [|discriminate].
-    apply negb_true_iff in F. destruct (Wp _ _ _ Q) as (E1 & E2 & E3).
-    exists j, m0. unfold stored, slot. rewrite E1, E2, E3. repeat split; auto.
-    apply verify_p2p_false; assumption.
+      exists j, p. unfold stored, slot. rewrite P1, P2, P3. auto 10.
+  - destruct (qget (h_qp s) r j) as [m0|] eqn:Q; [|discriminate].
+    destruct (Wp _ _ _ Q) as (E1 & E2 & E3).
+    destruct (verify_p2p_bad s m0 E3 Hv) as [B SV].
+    exists j, m0. unfold stored, slot. rewrite E1, E2, E3. auto 10.
 Qed.
 
 Definition verify_blame_ok (s : hstate) : Prop := forall c, h_err s = Some (c, EVerify) -> blames_bad s c.
@@ -1409,8 +1492,7 @@ Proof.
   set (s2 := emit_all ofp s1 (round_outputs s1 (h_cur s1) (cur_bv s1))).
   assert (E2 : h_err s2 = None) by (unfold s2; autorewrite with hdb; exact E1).
   assert (W2 : wf_queues s2).
-  { assert (hinv s2 -> wf_queues s2) by (intros (_ & X & _); exact X).
-    assert (G : forall l s0, wf_queues s0 -> wf_queues (emit_all ofp s0 l)).
+  { assert (G : forall l s0, wf_queues s0 -> wf_queues (emit_all ofp s0 l)).
     { induction l as [|o l IH]; intros s0 H0; cbn [emit_all]; [exact H0|]. apply IH.
       unfold wf_queues. autorewrite with hdb. destruct (o_bcast o); [apply wf_store|]; exact H0. }
     apply G, W1. }
@@ -1418,13 +1500,20 @@ Proof.
   destruct (existsb _ _); [intros c Hc; congruence|].
   destruct (_ =? 0).
   { intros c Hc. rewrite abort_none_err in Hc. unfold set_res, advance in Hc. prjs in Hc. congruence. }
-  destruct (first_bad _ _) eqn:F; [|split; [exact W2|exact E2]].
-  intros c Hc.
-  destruct (abort_err_cases (advance s2 (next_round s1)) ([p], EVerify)) as [X|X]; rewrite X in Hc.
-  - inversion Hc; subst c.
-    apply (blames_bad_frame (advance s2 (next_round s1))); autorewrite with hdb; try reflexivity.
-    eapply first_bad_blames; [exact W2|exact F].
-  - unfold advance in Hc. prjs in Hc. congruence.
+  destruct (first_bad _ _) as [[j v]|] eqn:F; [|split; [exact W2|exact E2]].
+  destruct v.
+  - (* VOk cannot be a bad verdict *)
+    apply first_bad_spec in F as (_ & _ & X). discriminate.
+  - intros c Hc.
+    destruct (abort_err_cases (advance s2 (next_round s1)) ([j], EVerify)) as [X|X]; rewrite X in Hc.
+    + inversion Hc; subst c.
+      apply (blames_bad_frame (advance s2 (next_round s1))); autorewrite with hdb; try reflexivity.
+      eapply first_bad_blames; [exact W2|exact F].
+    + unfold advance in Hc. prjs in Hc. congruence.
+  - intros c Hc.
+    destruct (abort_err_cases (advance s2 (next_round s1)) ([], EBroadcastHash)) as [X|X]; rewrite X in Hc.
+    + congruence.
+    + unfold advance in Hc. prjs in Hc. congruence.
 Qed.
 
 Lemma finalize_verify_blame vh ofp f s :
@@ -1450,7 +1539,8 @@ Proof.
   pose proof (wf_store s m W) as W1.
   assert (E1 : h_err (store s m) = None) by (autorewrite with hdb; exact E).
   destruct (negb _); [congruence|].
-  destruct (if m_bcast m then _ else _) eqn:V; [apply finalize_verify_blame; assumption|].
+  destruct (if m_bcast m then _ else _) eqn:V; [apply finalize_verify_blame; assumption| |].
+  2:{ intro Hc. destruct (abort_err_cases (store s m) ([], EBroadcastHash)) as [X|X]; rewrite X in Hc; congruence. }
   intro Hc. destruct (abort_err_cases (store s m) ([m_from m], EVerify)) as [X|X]; rewrite X in Hc; [|congruence].
   inversion Hc; subst c.
   apply (blames_bad_frame (store s m)); autorewrite with hdb; try reflexivity.
@@ -1458,12 +1548,12 @@ Proof.
   pose proof (store_slot_new s m Hq N) as St.
   apply can_accept_total_spec in C. destruct C as (C & _).
   destruct (m_bcast m) eqn:Bm.
-  - destruct (verify_bcast_false (store s m) m W1 Bm V) as [B|(p & Qp & B)]; rewrite store_h_shape in B.
-    + exists (m_from m), m. unfold stored. rewrite Bm. autorewrite with hdb. auto.
+  - destruct (verify_bcast_bad (store s m) m W1 Bm V) as [[B SV]|(p & Qp & B & SV)]; rewrite store_h_shape in B.
+    + exists (m_from m), m. unfold stored. rewrite Bm. autorewrite with hdb. auto 10.
     + destruct W1 as [_ Wp]. destruct (Wp _ _ _ Qp) as (P1 & P2 & P3).
-      exists (m_from m), p. unfold stored, slot. rewrite P1, P2, P3. autorewrite with hdb. auto.
-  - exists (m_from m), m. unfold stored. rewrite Bm. autorewrite with hdb. repeat split; auto.
-    rewrite <- (store_h_shape s m). apply verify_p2p_false; assumption.
+      exists (m_from m), p. unfold stored, slot. rewrite P1, P2, P3. autorewrite with hdb. auto 10.
+  - destruct (verify_p2p_bad (store s m) m Bm V) as [B SV]. rewrite store_h_shape in B.
+    exists (m_from m), m. unfold stored. rewrite Bm. autorewrite with hdb. auto 10.
 Qed.
 
 Theorem verify_failure_blames_sender fixed vh ofp self n ssid proto sh s m c :
@@ -1475,19 +1565,33 @@ Proof.
   intros R. apply verify_failure_blames_sender_inv. apply reachable_hinv in R. apply R.
 Qed.
 
-(* corollary: a sender all of whose stored messages are valid and expected is never named by EVerify *)
+(* corollary: a sender whose stored messages are, as far as they were sent under our broadcast view, all valid
+   and expected, is never named by EVerify *)
 Theorem honest_sender_never_blamed_by_verify fixed vh ofp self n ssid proto sh s m c j :
   reachable fixed vh ofp self n ssid proto sh s ->
   h_err s = None ->
   h_err (accept vh ofp s m) = Some (c, EVerify) ->
-  (forall m0, stored (accept vh ofp s m) m0 -> m_from m0 = j -> bad_msg (h_shape s) m0 = false) ->
+  (forall m0, stored (accept vh ofp s m) m0 -> m_from m0 = j -> same_view (accept vh ofp s m) m0 = true ->
+              bad_msg (h_shape s) m0 = false) ->
   ~ In j c.
 Proof.
   intros R E Hc Hon Hin.
-  destruct (verify_failure_blames_sender fixed vh ofp self n ssid proto sh s m c R E Hc) as (j' & m0 & -> & _ & F & St & B).
+  destruct (verify_failure_blames_sender fixed vh ofp self n ssid proto sh s m c R E Hc) as (j' & m0 & -> & _ & F & St & B & SV).
   destruct Hin as [<-|[]].
   assert (Sh : h_shape (accept vh ofp s m) = h_shape s) by apply accept_static.
-  rewrite Sh in B. rewrite (Hon m0 St F) in B. discriminate.
+  rewrite Sh in B. rewrite (Hon m0 St F SV) in B. discriminate.
+Qed.
+
+(* in particular: a party all of whose stored messages were sent under a different view is never named *)
+Theorem different_view_never_blamed_by_verify fixed vh ofp self n ssid proto sh s m c j :
+  reachable fixed vh ofp self n ssid proto sh s ->
+  h_err s = None ->
+  h_err (accept vh ofp s m) = Some (c, EVerify) ->
+  (forall m0, stored (accept vh ofp s m) m0 -> m_from m0 = j -> same_view (accept vh ofp s m) m0 = false) ->
+  ~ In j c.
+Proof.
+  intros R E Hc Hd. apply (honest_sender_never_blamed_by_verify fixed vh ofp self n ssid proto sh s m c j R E Hc).
+  intros m0 St F SV. rewrite (Hd m0 St F) in SV. discriminate.
 Qed.
 
 Theorem broadcast_hash_failure_names_nobody fixed vh ofp self n ssid proto sh s c :
@@ -1744,10 +1848,12 @@ Proof.
     pose proof (abort_out_length (set_res (advance s2 0)) None) as X.
     change (h_out (set_res (advance s2 0))) with (h_out s2) in X. rewrite Ho2, Ho1 in X. lia.
   - specialize (Hk eq_refl). cbn [Nat.eqb].
-    destruct (first_bad _ _).
-    + split; [apply abort_running; [exact Hr2|exact Hc2]|].
-      pose proof (abort_out_length (advance s2 (S (h_cur s))) (Some ([p], EVerify))) as X.
-      change (h_out (advance s2 (S (h_cur s)))) with (h_out s2) in X. rewrite Ho2, Ho1 in X. nia.
+    destruct (first_bad _ _) as [[j v]|].
+    + assert (Z : forall e, cap_post L (abort (advance s2 (S (h_cur s))) e)).
+      { intro e. split; [apply abort_running; [exact Hr2|exact Hc2]|].
+        pose proof (abort_out_length (advance s2 (S (h_cur s))) e) as X.
+        change (h_out (advance s2 (S (h_cur s)))) with (h_out s2) in X. rewrite Ho2, Ho1 in X. nia. }
+      destruct v; apply Z.
     + assert (Hn2 : h_n s2 = h_n s) by (unfold s2; autorewrite with hdb; exact Hn1).
       assert (Hs2 : h_self s2 = h_self s) by (unfold s2; autorewrite with hdb; exact Hs1).
       assert (Hsh2 : h_shape s2 = h_shape s) by (unfold s2; autorewrite with hdb; exact Hsh1).
@@ -1829,7 +1935,9 @@ Proof.
     assert (G3 : grows s0 (advance s2 (S (h_cur s1)))).
     { destruct G2 as (A & B & C). unfold advance, grows. prjs. repeat split; try apply C; auto.
       unfold s2 in B. autorewrite with hdb in B. lia. }
-    destruct (first_bad _ _).
+    destruct (first_bad _ _) as [[j []]|].
+    + right. revert G3. apply grows_frame; autorewrite with hdb; reflexivity.
+    + right. revert G3. apply grows_frame; autorewrite with hdb; reflexivity.
     + right. revert G3. apply grows_frame; autorewrite with hdb; reflexivity.
     + split; [exact G3|]. unfold advance. prjs. lia.
 Qed.
@@ -1861,6 +1969,7 @@ Proof.
     right. split; [|eapply grows_quiet; eassumption].
     destruct G as (_ & B & _). autorewrite with hdb in B. exact B.
   - right. autorewrite with hdb. split; [lia|]. revert Q1. apply quiet_frame; autorewrite with hdb; reflexivity.
+  - right. autorewrite with hdb. split; [lia|]. revert Q1. apply quiet_frame; autorewrite with hdb; reflexivity.
 Qed.
 
 (* out_capacity, Accept level *)
@@ -1891,6 +2000,8 @@ Proof.
     exists k. split; [lia|]. split; [apply store_low_quiet; assumption|]. unfold capacity in Hp. split; lia.
   - split; [apply abort_running; assumption|].
     pose proof (abort_out_length s1 (Some ([m_from m], EVerify))). rewrite Ho1 in *. lia.
+  - split; [apply abort_running; assumption|].
+    pose proof (abort_out_length s1 (Some ([], EBroadcastHash))). rewrite Ho1 in *. lia.
 Qed.
 
 (* ------------------------------------------------------------------ *)
